@@ -24,18 +24,19 @@ PATTERN_NAMES = [
 PLAIN_NAMES = ["alpha.txt", "Beta.txt", "gamma", "delta.html", "epsilon.html", "zeta.gif", "a", "A", "b c.txt",
                "café.txt", "10", "9", "z.txt", "Z.txt", "_under", "-dash"]
 DOTFILES = [".hidden", ".x", ".profile"]
+DOTDIRS = [".private", ".git", ".well-known"]
 
 
 def gen_dir(rng, n: int, allow_gophermap: bool) -> typing.Tuple[Tree, typing.Dict[str, str]]:
     """-> tree (relative to the directory) and name -> kind ('file'|'dir')"""
     t = Tree()
     kinds: typing.Dict[str, str] = {}
-    pool = PATTERN_NAMES + PLAIN_NAMES + DOTFILES
+    pool = PATTERN_NAMES + PLAIN_NAMES + DOTFILES + DOTDIRS
     names = rng.sample(pool, min(n, len(pool)))
     for nm in names:
         if nm == "gophermap" and not allow_gophermap:
             continue
-        if nm in (".cap", "lib", "bin", "etc", "dev", "lost+found") or (rng.random() < 0.2 and not nm.startswith(".")
+        if nm in (".cap", "lib", "bin", "etc", "dev", "lost+found") or nm in DOTDIRS or (rng.random() < 0.2 and not nm.startswith(".")
                                                                       and "." not in nm):
             t.dir(nm)
             t.file(nm + "/inside.txt", "inside %s\n" % nm)
